@@ -283,6 +283,29 @@ class DataDependentBranch(AnalysisError):
     """a branch whose condition depends on array data (an elementwise comparison), not on known constants"""
 
 
+def explore_branches(run, limit=32):
+    """run(decide) once per combination of outcomes of the data-dependent branches it meets (depth first, False first);
+    `decide` is to be installed as the evaluator's branch_oracle.  Returns [(decisions, result of run)]."""
+    pending, results = [[]], []
+    while pending:
+        prefix = pending.pop()
+        taken = []
+
+        def decide(v, prefix=prefix, taken=taken):
+            i = len(taken)
+            if i < len(prefix):
+                c = prefix[i]
+            else:
+                c = False
+                pending.append(list(taken) + [True])
+            taken.append(c)
+            return c
+        results.append((taken, run(decide)))
+        if len(results) > limit:
+            raise AnalysisError(f"more than {limit} combinations of data-dependent branches")
+    return results
+
+
 class ArrV:
     """numpy array whose trailing axes have constant sizes (e.g. (..., 6, 6)); `batch` leading
     axes are symbolic grid axes.  Cells default to `fill`."""
@@ -1081,6 +1104,8 @@ class Ev:
             return bool(v.d)
         if isinstance(v, Obj):
             return True
+        if isinstance(v, (CondV, TolCond)) and getattr(self, "branch_oracle", None) is not None:
+            return self.branch_oracle(v)
         if isinstance(v, (CondV, TolCond)):
             raise DataDependentBranch(f"branch on array data [{getattr(v, 'text', '?')}]", f"{mod.rel}:{getattr(n, 'lineno', 0)}" if mod else "")
         raise self.err(f"branch on a value that is not a known constant ({type(v).__name__})", n, mod)
